@@ -2,7 +2,7 @@
 # Runs the repository's test suite with the hook guard OFF and compares with BASELINE.json's stable_pass list.
 # usage: tools/baseline_check.sh [logfile]   -> prints "BASELINE OK n/448" or the missing tests
 OUT=${1:-/tmp/baseline_check}
-cd /repo && env -u XITORCH_VERIF /venv/bin/python -m pytest -ra -q -p no:cacheprovider --timeout=900 --continue-on-collection-errors --junitxml=$OUT.xml > $OUT.log 2>&1
+cd /repo && env -u XITORCH_VERIF OMP_NUM_THREADS=2 MKL_NUM_THREADS=2 /venv/bin/python -m pytest -ra -q -p no:cacheprovider --timeout=900 --continue-on-collection-errors --junitxml=$OUT.xml > $OUT.log 2>&1
 /venv/bin/python - "$OUT.xml" <<'PY'
 import json, sys
 import xml.etree.ElementTree as ET
